@@ -16,6 +16,7 @@ import (
 	"github.com/iotaledger/hive.go/ds/serializableorderedmap"
 	"github.com/iotaledger/hive.go/serializer/v2"
 	"github.com/iotaledger/hive.go/serializer/v2/stream"
+	"github.com/iotaledger/hive.go/serializer/v2/typeutils"
 	"verifharness/hx"
 	"verifsim/simrt"
 )
@@ -215,6 +216,23 @@ func rawObject(short bool) func(b []byte) ([]byte, int, error) {
 }
 
 var streamTargets = []streamTarget{
+	// the typeutils decoders as object callbacks: the size of the object comes from the input's own length prefix, so
+	// they see byte strings of every length (here: the announced and supplied length is drawn from 0..40)
+	{"stream.ReadObjectWithSize(typeutils)", func(s *simrt.Sim) ([]byte, []mark, func(io.ReadSeeker) error) {
+		lt := s.Choose(4)
+		b := genRawBytes(s, s.Choose(41))
+		wide := s.Choose(2) == 1
+		return written(func(w *stream.ByteBuffer) error { return stream.WriteBytesWithSize(w, b, lenTypes[lt]) }), lenMark(lt, "len"),
+			func(r io.ReadSeeker) error {
+				var err error
+				if wide {
+					_, err = stream.ReadObjectWithSize(r, lenTypes[lt], typeutils.ByteArray32FromBytes)
+				} else {
+					_, err = stream.ReadObjectWithSize(r, lenTypes[lt], typeutils.Uint64FromBytes)
+				}
+				return err
+			}
+	}},
 	{"stream.Read", func(s *simrt.Sim) ([]byte, []mark, func(io.ReadSeeker) error) {
 		switch s.Choose(4) {
 		case 0:
